@@ -189,6 +189,9 @@ def scenarios(tier):
     if not q:
         S.append(mk("open-emptywrite-close-vs-late-listen", {0: [[("open", "p"), ("write", 0, b""), ("close", 0)]], 1: [[("listen", "p")]]},
                     max_depth=60, max_states=400000))
+    # data from the peer crossing a local close: the close is not forgotten (a later write still fails, connectionLost comes once)
+    X = {0: [[("open", "p"), ("close", 0), ("write", 0, b"late")]], 1: [[("listen", "p")], [("swrite", 0, b"b1")]]}
+    S.append(mk("data-crossing-local-close", X, max_depth=80, max_states=400000))
     A2 = {0: [[("open", "p"), ("write", 0, b"a1"), ("write", 0, b""), ("write", 0, b"a1"), ("close", 0), ("write", 0, b"late")]],
           1: [[("listen", "p")], [("swrite", 0, b"b1"), ("sclose", 0), ("swrite", 0, b"late")]]}
     S.append(mk("both-write-both-close-dev", A2, dev_bound=3 if q else 4, max_depth=120))
